@@ -9,7 +9,10 @@ MANIFEST = {
             "candidate pivots are exactly zero; in that case no subscript outside the column's list is touched (the diagonal "
             "row is recorded for a column without candidates); the info returned by the factorization is the smallest nonzero "
             "per-column info for EVERY distribution of the columns over the workers and every processing order (schedule "
-            "independence). Tie: InfoModel.gstrf_info (extracted) is fed with the per-worker sequences of pivot-search outcomes of "
+            "independence); and (over the reals, ElimRank.v) WHICH column is met first does not depend on the pivot choices: for any "
+            "admissible row pivoting the next column has all candidates zero iff that column of A*Pc is a linear combination of "
+            "the earlier ones, the eliminated prefix is independent, so the reported position is the least linearly dependent "
+            "column -- the same for every threshold, tie-break, forced row order and schedule. Tie: InfoModel.gstrf_info (extracted) is fed with the per-worker sequences of pivot-search outcomes of "
             "every real run (hook, worker number) and must give the returned info, including runs in which a worker meets a later "
             "singular column before an earlier one (counted in the evidence); the pivot model is replayed on every pivot search of real runs (shared with C02); the real "
             "drivers p?gssv / p?gssvx (s/d/c/z, ASan build, 1..8 threads, seeded perturbation) are run on explicit zero columns, "
@@ -17,7 +20,8 @@ MANIFEST = {
             "columns and exact cancellation; info is compared with an exact rational elimination of A*Pc, B/X/A with pristine "
             "copies, and L, U are destroyed under ASan.",
     "note": "generic_first_deficient (info = first prefix with structural rank < k) is decided per input by the exact oracle, "
-            "not proved. Trusted: Coq kernel, extraction, hooks, python exact oracle, AddressSanitizer.",
+            "not proved (the numerical-rank characterisation is: c06_first_zero_column_is_least_dependent; it is what makes the "
+            "oracle's own pivot choices irrelevant). Trusted: Coq kernel, extraction, hooks, python exact oracle, AddressSanitizer.",
     "technique": "Coq proof (pivot rule singular branch, min-combination of per-thread info) + exact-rational oracle on real driver runs under ASan",
 }
 
